@@ -40,11 +40,18 @@ fn is_border(x: usize, y: usize) -> bool {
 
 /// OUT (C),A at in-frame time `t` (instruction start). Returns (w0, w1): extent of the I/O cycle.
 fn out_at(e: &mut Emu, t: usize, colour: u8) -> (i64, i64) {
+    out_port_at(e, t, colour, 0x00FE)
+}
+
+/// even ports = ULA ports; the high byte stays in uncontended memory so timing is the same
+const ULA_PORTS: [u16; 6] = [0x00FE, 0xFEFE, 0x00FC, 0x80FA, 0xBF00, 0x9CF6];
+
+fn out_port_at(e: &mut Emu, t: usize, colour: u8, port: u16) -> (i64, i64) {
     e.verif_set_frame_clocks(t);
     let mut r = RegsView::default();
     r.pc = OUTC;
     r.sp = 0xBF00;
-    r.bc = 0x00FE;
+    r.bc = port;
     r.af = (colour as u16) << 8;
     rig::set_regs(e.verif_cpu(), &r);
     let f0 = e.verif_total_frames();
@@ -144,11 +151,24 @@ fn single_writes(ctx: &Ctx, m128: bool, ts: &[usize]) {
                 if t < start + 1 {
                     // the write would be before "now": take it in the following frame position anyway
                 }
-                let (w0, w1) = out_at(e, t.max(start), colour);
+                let port = ULA_PORTS[(t / 3) % ULA_PORTS.len()];
+                let (w0, w1) = out_port_at(e, t.max(start), colour, port);
+                if m128 && e.verif_paging().0 != 0 {
+                    // an even port with A15=0 and A1=0 also reaches the paging latch on the 128K: undo
+                    rig::cpu_out(e, OUTC + 8, 0x7FFD, 0);
+                    let mut r = RegsView::default();
+                    r.pc = IDLE;
+                    r.sp = 0xBF00;
+                    rig::set_regs(e.verif_cpu(), &r);
+                }
                 let wrapped = w1 >= 1_000_000;
                 let reported: u8 = e.border_color().into();
                 if reported != colour {
-                    ctx.violation("C09:border_color-report", &format!("border_color() reports {} after OUT (FE),{}", reported, colour), json!({"kind":"single","m128":m128,"t":t}));
+                    ctx.violation(
+                        &format!("C09:border_color-report:{}", if port == 0x00FE { "port-FE" } else { "other-even-port" }),
+                        &format!("{} machine: border_color() reports {} after OUT to the even port {:04x} with value {}", if m128 { "128K" } else { "48K" }, reported, port, colour),
+                        json!({"kind":"single","m128":m128,"t":t}),
+                    );
                 }
                 if wrapped {
                     // the write landed in the next frame: the frame just completed has no write
@@ -208,6 +228,52 @@ fn pair_writes(ctx: &Ctx, m128: bool, step: usize) {
                 out_at(e, 200, 7);
                 run_to_frame_end(e, m128);
                 run_to_frame_end(e, m128);
+            }
+        },
+    );
+}
+
+/// Two consecutive frames with two writes each, colours drawn from {2,5} with repetition, at four
+/// places of the frame: a write that repeats the active colour must still leave a correct frame
+/// even when the previous frame changed colour half-way down.
+fn two_frame_histories(ctx: &Ctx, m128: bool) {
+    let sp = spec(m128);
+    let line = sp.line as usize;
+    let top = sp.first_pixel as usize - 24 * line - 16;
+    let places = [120usize, top + 60 * line + 40, top + 218 * line + 10, top + 230 * line + 30];
+    let mut jobs = Vec::new();
+    for c in 0..16u32 {
+        for (i1, i2) in [(0, 1), (0, 2), (0, 3), (1, 2), (1, 3), (2, 3)] {
+            for (j1, j2) in [(0, 1), (0, 2), (0, 3), (1, 2), (1, 3), (2, 3)] {
+                jobs.push((c, i1, i2, j1, j2));
+            }
+        }
+    }
+    let n = jobs.len();
+    let chunks = 32usize;
+    par_for_with(
+        chunks,
+        1,
+        || machine(m128),
+        |e, ch| {
+            for k in (ch * n / chunks)..((ch + 1) * n / chunks) {
+                let (c, i1, i2, j1, j2) = jobs[k];
+                let col = |b: u32| if c & (1 << b) != 0 { 5u8 } else { 2u8 };
+                // MIC/EAR bits vary so that a repeated colour is still a different port value
+                settle(e, m128, 7);
+                let (a0, a1) = out_port_at(e, places[i1], col(0), 0x00FE);
+                let (b0, b1) = out_port_at(e, places[i2].max(e.verif_frame_clocks()), col(1) | 0x08, 0x00FE);
+                run_to_frame_end(e, m128);
+                let case = json!({"kind":"two-frame","m128":m128,"colours":c,"places":[i1,i2,j1,j2]});
+                compare(ctx, e, m128, 7, &[(a0, a1, col(0)), (b0, b1, col(1))], case.clone(), "two-frame-history:first-frame");
+                let (c0, c1) = out_port_at(e, places[j1].max(e.verif_frame_clocks()), col(2) | 0x10, 0x00FE);
+                let (d0, d1) = out_port_at(e, places[j2].max(e.verif_frame_clocks()), col(3) | 0x08, 0x00FE);
+                run_to_frame_end(e, m128);
+                let jd = compare(ctx, e, m128, col(1), &[(c0, c1, col(2)), (d0, d1, col(3))], case.clone(), "two-frame-history:second-frame");
+                run_to_frame_end(e, m128);
+                compare(ctx, e, m128, col(3), &[], case, "two-frame-history:following-idle-frame");
+                ctx.add_eval(1);
+                ctx.outcome(jd ^ ((c as u64) << 40));
             }
         },
     );
@@ -275,6 +341,7 @@ pub fn run(tier: Tier, seed: u64, replay: Option<String>) -> i32 {
         match c["kind"].as_str().unwrap_or("") {
             "single" => single_writes(&ctx, m128, &[c["t"].as_u64().unwrap() as usize]),
             "pair" => pair_writes(&ctx, m128, 8),
+            "two-frame" => two_frame_histories(&ctx, m128),
             _ => snapshot_border(&ctx),
         }
         let n = ctx.violation_classes();
@@ -286,12 +353,13 @@ pub fn run(tier: Tier, seed: u64, replay: Option<String>) -> i32 {
         ctx.note(if m128 { "write_times_128k" } else { "write_times_48k" }, json!(ts.len()));
         single_writes(&ctx, m128, &ts);
         pair_writes(&ctx, m128, if quick { 12 } else { 3 });
+        two_frame_histories(&ctx, m128);
     }
     snapshot_border(&ctx);
     ctx.sample(json!({"write":"OUT (FE),2 with the I/O cycle at T=20000..20004","judged":"every border pixel whose beam time is more than 8 T away from the cycle"}));
     ctx.note("not_judged", json!("pixels within 16 pixels (8 T) of the I/O cycle of a write; the canvas area of the border buffer"));
     ctx.finish(
-        "one OUT (C),A to port 00FE executed by the emulated CPU with its start at every T of the frame (quick: complete first-visible, first-picture, middle, last-picture and last-visible lines plus both ends of the frame), every ordered pair of OUTs inside one line at three line positions (step 3 T thorough / 12 T quick), a write-free frame after every case, writes straddling the frame wrap, SNA/SZX snapshot borders for all 8 colours; the completed 320x240 border buffer is compared with the beam model (pixel (x,y) at T = first_pixel + (y-24)*line + (x-32)/2) outside an 8-T band around each I/O cycle; border_color() after every write. distinct = (judged pixel count, colour) outcomes",
+        "one OUT (C),A to an even port (rotating over six even port addresses incl. ones that also select the 128K paging latch) executed by the emulated CPU with its start at every T of the frame (quick: complete first-visible, first-picture, middle, last-picture and last-visible lines plus both ends of the frame), every ordered pair of OUTs inside one line at three line positions (step 3 T thorough / 12 T quick), a write-free frame after every case, two-frame histories of two writes each with repeated colours at four places of the frame (576 per machine), writes straddling the frame wrap, SNA/SZX snapshot borders for all 8 colours; the completed 320x240 border buffer is compared with the beam model (pixel (x,y) at T = first_pixel + (y-24)*line + (x-32)/2) outside an 8-T band around each I/O cycle; border_color() after every write. distinct = (judged pixel count, colour) outcomes",
         false,
         &["frame clock placed through the hook; the remaining frame is idle loop", "I/O cycle extent = from 8 T after the OUT starts to the end of the instruction"],
     )
